@@ -145,9 +145,10 @@ def r04_5(ctx):
             if n.get("k") == "Closure" and n.get("params") and (n["params"][0].get("ty") or "").endswith("NormalDirective"):
                 t = expr_str(n["body"])
                 i_dir = t.find("resolve_directive(")
-                i_val = t.find("expr: directive.value")
-                i_arg = t.find("if let Some(argument) = directive.argument")
-                i_mod = t.find("if let Some(modifiers) = directive.modifiers")
+                # (first mention of each part: pushed one by one under `if let Some(..)`, or chained `[d, v].chain(argument).chain(modifiers)`)
+                i_val = t.find("directive.value")
+                i_arg = t.find("directive.argument")
+                i_mod = t.find("directive.modifiers")
                 ok = 0 <= i_dir < i_val < i_arg < i_mod
                 r.ob("element builder emits [directive, value, argument?, modifiers?] in this order", ok, C.mloc(el, n), "positions %s" % [i_dir, i_val, i_arg, i_mod])
     if dir_:
@@ -192,7 +193,7 @@ def r04_5(ctx):
     if mb:
         t = expr_str(mb["body"])
         r.saw(mb["path"])
-        r.ob("modifiers become `{name: true}` entries (none -> no object)", bool(re.search(r"if modifiers\.is_empty\(\) (ret )?None", t)) and "value: Lit(Bool(Bool{span: DUMMY_SP, value: True}))" in t, C.mloc(mb, mb), t[:120])
+        r.ob("modifiers become `{name: true}` entries (none -> no object)", bool(re.search(r"if modifiers\.is_empty\(\) (ret )?None|^!modifiers\.is_empty\(\)\.then\(\|\| ", t)) and "value: Lit(Bool(Bool{span: DUMMY_SP, value: True}))" in t, C.mloc(mb, mb), t[:120])
     return r
 
 
